@@ -4,5 +4,5 @@ id=$1; shift
 src=/tmp/seedwork7/$id/out; dst=/verif/seeded/$id-r7
 [ -f $src/patch.diff ] || { echo "$id: no patch.diff"; exit 1; }
 mkdir -p $dst && cp -r $src/. $dst/
-SEEDBASE=HEAD /verif/tools/seedverify.sh $id-r7
-SEEDALT_SHOW=1 SEEDALT_SRC=${SEEDALT_SRC:-/verif} /verif/tools/seedalt.sh $dst/patch.diff HEAD $id "$@"
+SEEDBASE=${SEEDBASE:-HEAD} /verif/tools/seedverify.sh $id-r7
+SEEDALT_SHOW=1 SEEDALT_SRC=${SEEDALT_SRC:-/verif} /verif/tools/seedalt.sh $dst/patch.diff ${SEEDBASE:-HEAD} $id "$@"
